@@ -5,6 +5,8 @@ use super::ExportError as E;
 const ERROR_MESSAGE: &str = r#"The path provided with `#[ts(export_to = "..")]` is not valid"#;
 
 pub fn absolute<T: AsRef<Path>>(path: T) -> Result<PathBuf, E> {
+    #[cfg(ts_rs_verif)]
+    use crate::verif_seam::std_shim as std;
     let path = std::env::current_dir()?.join(path.as_ref());
 
     let mut out = Vec::new();
